@@ -417,6 +417,52 @@ def _check_kron(ck, prog, km):
     uses = [n for n in ast.walk(lp) if isinstance(n, ast.Subscript) and isinstance(n.value, ast.Name) and n.value.id == "matrices"]
     ck.check(any(ast.unparse(u.slice) == ast.unparse(lp.target) for u in uses), "C04.R4", "_kron_mult:site s uses matrices[s]", site, "the unitary applied at site s is not matrices[s]")
 
+    # ---- block addressing of one site: blocks of n elements with stride r, block starts K*n*r + I for
+    # K in range(l // n), I in range(r): a bijection onto range(l) (mixed radix (K, j, I))
+    def thb(it):
+        x = api.cx_t(it, "x", ("N", "M"))
+        ms = it.new_list(None)
+        ms.obj.elem = api.cx_t(it, "u", (2, 2))
+        return it.call_function(VFunc(km), [ms, x], {}, None)
+
+    for p in [q for q in paths_of(prog, thb, sticky=True, max_paths=20) if q.outcome == "return"][:1]:
+        t = p.value.term
+        loops = [l for l in p.interp.loops if "_kron_mult" in l["site"]]
+        inner = sorted({l["site"] for l in loops}, key=lambda x: int(x.rsplit(":", 1)[1]))
+        ups = [a for a in (t.all_atoms() if t is not None else []) if isinstance(a, T.App) and a.op == "upd" and len(a.args[1]) >= 2 and isinstance(a.args[1][1], tuple) and a.args[1][1][0] == "slice"]
+        gen = None
+        for u in ups:
+            sl = u.args[1][1]
+            syms = set()
+            for b in sl[1:]:
+                if isinstance(b, T.Poly):
+                    syms |= b.syms()
+            loopsyms = sorted(x for x in syms if x.startswith("i@"))
+            if len(loopsyms) == 2:
+                gen = (sl, loopsyms, sorted(x for x in syms if x.startswith("carry:")))
+        if gen is None or len(inner) < 3:
+            ck.undecided("C04.R4", "_kron_mult:block addressing", site, "generic block slice not found")
+        else:
+            sl, (s1, s2), carries = gen
+            K, I = T.sym(s1), T.sym(s2)  # outer (block) and inner (offset) loop variables, by line order
+            if int(s1.rsplit(":", 1)[1]) > int(s2.rsplit(":", 1)[1]):
+                K, I = I, K
+            a, b, c = (x if isinstance(x, T.Poly) else T.P(x) for x in sl[1:])
+            r = c
+            n_ = T.const(2)
+            ok = (a == n_ * r * K + I) and (b - a == n_ * r) and r.single_atom() is not None
+            ck.check(bool(ok), "C04.R4", "_kron_mult:block = n elements with stride r starting at K*n*r + I", site,
+                     "blocks are addressed by slice(%r, %r, %r); expected slice(K*n*r + I, (K+1)*n*r + I, r)" % (a, b, c))
+            # offset loop runs over range(r), block loop over range(l // n)
+            rng = {l["site"]: l["iter"] for l in loops if l["generic"] is not None or True}
+            il = [l for l in loops if l["site"] == inner[-1]]
+            okI = any(isinstance(l["iter"], VRange) and num_term(l["iter"].start) == T.ZERO and num_term(l["iter"].stop) == r and num_term(l["iter"].step) == T.ONE for l in il)
+            ck.check(bool(okI), "C04.R4", "_kron_mult:offsets I run over range(r)", site, "the offset loop does not run over range(stride)")
+            kl = [l for l in loops if l["site"] == inner[-2]]
+            okK = any(isinstance(l["iter"], VRange) and num_term(l["iter"].start) == T.ZERO and num_term(l["iter"].step) == T.ONE and num_term(l["iter"].stop) is not None
+                      and any(isinstance(at, T.App) and at.op == "floordiv" and at.args[1] == n_ for at in num_term(l["iter"].stop).all_atoms()) for l in kl)
+            ck.check(bool(okK), "C04.R4", "_kron_mult:blocks K run over range(l // n)", site, "the block loop does not run over range(l // n[s]) with l divided before the site is processed")
+
     def thk(it):
         x = api.cx_t(it, "x", ("N", "M"))
         ms = it.new_list([api.cx_t(it, "u0", (2, 2)), api.cx_t(it, "u1", (2, 2))])
